@@ -274,7 +274,15 @@ pub fn opts_of(c: &Case, bt: &Built, t: &Target) -> DumpOpts {
         let s = bt.stacks[pick(*m, bt.stacks.len())];
         let size = s.end - s.base;
         let start = s.base + (*off as u64 % size);
-        let l = 1 + (*len as u64 % (s.end - start));
+        let l = if *len >= 0xffff_fff0 {
+            // hostile caller configuration: absurd lengths
+            [u64::MAX, u64::MAX - 4095, 1 << 63, (1 << 63) - 1, 1 << 62, 1 << 47, 1 << 40, u64::MAX / 2 + 1][(*len & 7) as usize]
+        } else if *len & 0x8000_0000 != 0 {
+            // straddles the end of the mapping: readable head, unmapped tail (a short read for the writer)
+            (s.end - start) + 1 + (*len as u64 & 0xfff)
+        } else {
+            1 + (*len as u64 % (s.end - start))
+        };
         d.app_memory.push((start, l));
     }
     for (a, pages, name, id) in &o.user {
@@ -407,7 +415,7 @@ pub fn opts_strategy() -> impl Strategy<Value = OptsG> {
         prop_oneof![3 => Just(LimitG::None), 1 => Just(LimitG::Tiny), 2 => (-1i8..2).prop_map(LimitG::Threshold), 1 => Just(LimitG::Huge)],
         any::<bool>(),
         proptest::option::weighted(0.3, addr_strategy()),
-        proptest::collection::vec((any::<u16>(), any::<u32>(), prop_oneof![Just(0u32), Just(7u32), 0u32..5000, any::<u32>()]), 0..5),
+        proptest::collection::vec((any::<u16>(), any::<u32>(), prop_oneof![2 => Just(0u32), 2 => Just(7u32), 4 => 0u32..5000, 3 => 0u32..0x7fff_ffff, 2 => 0x8000_0000u32..0x8000_1000, 1 => 0xffff_fff0u32..=0xffff_ffff]), 0..5),
         proptest::collection::vec((addr_strategy(), any::<u16>(), proptest::option::of(proptest::collection::vec(prop_oneof![Just('/'), Just(' '), Just('.'), (b'a'..=b'z').prop_map(|c| c as char)], 0..12).prop_map(|v| v.into_iter().collect::<String>())), proptest::collection::vec(any::<u8>(), 0..24)), 0..4),
         prop_oneof![
             3 => Just(AuxvG::None),
